@@ -33,7 +33,7 @@ ASSUMPTIONS = [
     "the rulebook is a fixed default-logic rulebook that knows every row of the alphabet (the property restricts (a) to "
     "logics that emit the row or its negation)",
 ]
-BUDGET = {"quick": 60, "thorough": 900}
+BUDGET = {"quick": 150, "thorough": 1500}
 
 VENDORS = {"huawei": ("undo", ("quit",)), "cisco": ("no", ("exit",))}
 
